@@ -624,7 +624,45 @@ def r14(ctx):
     ctx.floor(R, 1)
 
 
+def r15(ctx):
+    R = "C09-R15"
+    ctx.rule(R, "(a) a join that is refused leaves no trace: in join_multicast_v4 / v6 the membership is recorded (MulticastGroups::join) only "
+                "after the interface check passed; (b) the connected-peer filter and the bind match compare ports: host::matches decides on "
+                "address *and* port (the UDP peer filter calls it with nothing else having compared the ports)")
+    n = 0
+    for b in sorted(ctx.w.bodies.values(), key=lambda x: x.id):
+        if b.crate != "turmoil" or not re.search(r"UdpSocket::join_multicast_v[46]", b.id):
+            continue
+        joins = [bb for bb, t in b.calls("turmoil::net::udp::MulticastGroups::join")]
+        ver = [bb for bb, t in b.calls(re.compile(r"^turmoil::net::udp::verify_ipv[46]_bind_interface$"))]
+        if not joins:
+            continue
+        n += 1
+        ok = bool(ver) and all(b.dominated_by_any(j, blocks=ver) for j in joins)
+        if not ok and b.parent in ctx.w.bodies:
+            # the check is made by the enclosing function before it enters the world (v6)
+            rb = ctx.w.bodies[b.parent]
+            rv = [bb for bb, t in rb.calls(re.compile(r"^turmoil::net::udp::verify_ipv[46]_bind_interface$"))]
+            wc = [bb for bb, t in rb.calls(re.compile(r"World::current$")) if b.id in closure_args(rb, t)]
+            ok = bool(rv) and bool(wc) and all(rb.dominated_by_any(x, blocks=rv) for x in wc)
+        ctx.inst(R, f"join:after-the-interface-check:{b.id.split('UdpSocket::', 1)[1].split('::', 1)[0]}", ok, b.term(joins[0])["s"], "the membership is recorded once the interface was accepted" if ok else
+                 f"`{b.id}` records the membership before (or without) the interface check: a join that fails with AddrNotAvailable still makes the socket a member - it receives "
+                 "every later datagram of a group it never joined")
+    ctx.floor(R, 2)
+    m = ctx.w.bodies.get("turmoil::host::matches")
+    if m:
+        ports = [t for bb, t in m.calls(re.compile(r"^std::net::SocketAddr::port$"))]
+        whole = [t for bb, t in m.calls(re.compile(r"SocketAddr as std::cmp::PartialEq>::(eq|ne)$"))]
+        ok = len(ports) >= 2 and (bool(whole) or len(ports) >= 4)
+        ctx.inst(R, "matches:compares-ports", ok, m.span, "host::matches compares address and port" if ok else
+                 "host::matches no longer compares the ports (only the ip): the connected-peer filter `matches(target, src)` lets every socket of the peer's host through - a "
+                 "connected UDP socket receives datagrams from senders it is not connected to")
+    elif ctx.strict:
+        ctx.bad(R, "anchor-missing:host::matches", "", "turmoil::host::matches not found")
+
+
 def run(ctx):
+    r15(ctx)
     r14(ctx)
     r13(ctx)
     r12(ctx)
